@@ -2,11 +2,11 @@
 from checks import symgen, refqr, refmicro, refrmqr
 
 ID = 'C03'
-PROP_MODULES = ['QRV.Props.C03', 'QRV.Props.C03QR', 'QRV.Props.C03Micro', 'QRV.Props.C03RMQR', 'QRV.Props.C03Conformant']
+PROP_MODULES = ['QRV.Props.C03', 'QRV.Props.C03QR', 'QRV.Props.C03Micro', 'QRV.Props.C03RMQR', 'QRV.Props.C03Conformant', 'QRV.Props.C03Format']
 RULE = ('for every (version, level) pair of the three symbologies: a clean symbol (from the implementation, and - QR and Micro QR - from the independent reference encoder) is damaged '
         'in at most the rated number of codewords per Reed-Solomon block (t_b = floor((parity - p)/2) as tabulated in the standard; for QR blocks computed from the compact table, '
         'Micro QR 0/1/2/2/4/3/5/7, rMQR from the regenerated table), positions among data and parity codewords (first, last, random), a non-empty subset of the 8 modules of each '
-        'chosen codeword flipped; the format information is left intact. The decoder must return the original description. Also t_b+... beyond capacity is NOT required to decode. '
+        'chosen codeword flipped; the format information is left intact, or (plan rated+format) carries one or two wrong modules in each copy on top of the rated data damage. The decoder must return the original description. Also t_b+... beyond capacity is NOT required to decode. '
         'Both steps are also run on the Lean model. non-trivial = at least one codeword damaged; distinct = distinct damaged bitmaps')
 TRUSTED = [
     'Lean 4.33.0 kernel; axioms per theorem as listed (C14 completeness + C01 components)',
@@ -115,14 +115,14 @@ def gen(ctx):
         for src, m0 in sources:
             plans = [('clean', None)]
             if any(t > 0 for _, _, t in rt):
-                plans += [('rated', 'rand'), ('rated', r.choice(['first', 'last'])), ('one', 'rand')]
+                plans += [('rated', 'rand'), ('rated', r.choice(['first', 'last'])), ('one', 'rand'), ('rated+format', 'rand')]
             for kind, where in plans:
                 m = [row[:] for row in m0]
                 ndam = 0
                 for b, (d, e, t) in enumerate(rt):
                     if kind == 'clean' or t == 0:
                         continue
-                    k = t if kind == 'rated' else 1
+                    k = t if kind.startswith('rated') else 1
                     idx = list(range(d + e))
                     if where == 'first':
                         pos = idx[:k]
@@ -139,6 +139,21 @@ def gen(ctx):
                         sub = [c for c in cells if r.chance(1, 2)] or [r.choice(cells)]
                         flip(m, sub)
                         ndam += 1
+                if kind == 'rated+format':
+                    # the format information "stays readable": up to two wrong modules in each copy (all decoders accept a
+                    # copy within distance 2 of a code word), on top of the rated damage of the data
+                    from checks import c11
+                    hh, ww = len(m), len(m[0])
+                    if sym == 'qr':
+                        copies = [list(c.values()) for c in c11.qr_pos(ww)]
+                    elif sym == 'mq':
+                        copies = [[(8, 1 + i) for i in range(8)] + [(15 - j, 8) for j in range(8, 15)]]
+                    else:
+                        copies = [list(c.values()) for c in c11.rm_pos(ww, hh)]
+                    for cells in copies:
+                        cells = list(cells)
+                        r.shuffle(cells)
+                        flip(m, cells[:r.range(1, 2)])
                 dec.append('%s.dec %s' % (sym, refqr.to_image_str(m)))
                 dmeta.append((sym, ver, level, mask, segs, src, kind, where, ndam))
     ctx.c03 = dmeta
